@@ -124,7 +124,7 @@ pub fn observe<M: ShortMessage>(m: &M) -> Obs {
     }
 }
 
-fn in_range_obs(o: &Obs) -> Result<(), Fail> {
+pub fn in_range_obs(o: &Obs) -> Result<(), Fail> {
     ensure!(o.d1 < 128 && o.d2 < 128 && o.bytes.1 < 128 && o.bytes.2 < 128, "range", "data byte out of range: {:?}", o);
     ensure!(o.channel.map_or(true, |c| c < 16), "range", "channel out of range: {:?}", o);
     ensure!(o.bend.map_or(true, |c| c < 16384), "range", "bend out of range: {:?}", o);
